@@ -677,6 +677,22 @@ func Enumerate() []*Scen {
 			}
 			out = append(out, s)
 		}
+		// ... and the one bad file at position 256 or 512 of an otherwise valid list (an exit status
+		// computed from the position wraps to 0 there): malformed, or failing to apply
+		for _, pos := range []int{255, 256, 257, 512} {
+			for kind, bad := range []File{{Name: "bad.json", State: StFile, Content: sim.Bytes(`[{"op":"add","path":"/a"`), Note: "torn"}, {Name: "bad.json", State: StFile, Content: sim.Bytes(`[{"op":"test","path":"/step","value":99}]`), Note: "fails to apply"}} {
+				s := &Scen{Target: target, Stdin: sim.Bytes(chainDoc), Note: fmt.Sprintf("enumeration: the only bad patch file (kind %d) at position %d", kind, pos),
+					Files: []File{{Name: "ok.json", State: StFile, Content: sim.Bytes(`[]`), Note: "valid"}, bad}}
+				for i := 1; i <= pos+2; i++ {
+					if i == pos {
+						s.Args = append(s.Args, Arg{File: 1, Spelling: i % 4})
+					} else {
+						s.Args = append(s.Args, Arg{File: 0, Spelling: i % 4})
+					}
+				}
+				out = append(out, s)
+			}
+		}
 		{
 			s := &Scen{Target: target, Stdin: sim.Bytes(chainDoc), Note: "enumeration: 256 applicable patch files"}
 			for i := 0; i < 256; i++ {
@@ -1071,7 +1087,7 @@ func RunWorker(p sim.Params) *sim.Summary {
 		sum.Enum["fault_and_order_enumeration"]++
 	}
 	if done {
-		sum.Exhaustive = []string{fmt.Sprintf("every fault kind (%d) x every position in -p lists of length 1..3 with all other patches valid, every permutation of three chained and of three overwriting patches, no/duplicate/symlinked arguments, 14 stdin variants (empty, other roots, torn, byte-order marks, trailing data), 255/256/257/512 patch arguments, a 1 MiB patch file at each of 3 positions, stdin redirected from a regular file (5 documents, with and without patches), six two-file lists whose second file refers to the whole document or replaces a null root, 100 patch files under an open-file limit of 32, stdin delivered in 1/2/n writes, a named pipe, an inherited pipe (/dev/fd/N) and a relative symlink in a sub-directory as patch file at every position, 4 path styles x 4 flag spellings, a stray positional argument (4 texts) at each position of a three-patch list - for both binaries (%d executions)", numFaultKinds, len(enum))}
+		sum.Exhaustive = []string{fmt.Sprintf("every fault kind (%d) x every position in -p lists of length 1..3 with all other patches valid, every permutation of three chained and of three overwriting patches, no/duplicate/symlinked arguments, 14 stdin variants (empty, other roots, torn, byte-order marks, trailing data), 255/256/257/512 patch arguments (all undecodable; all applicable; the only bad one at that position), a 1 MiB patch file at each of 3 positions, stdin redirected from a regular file (5 documents, with and without patches), six two-file lists whose second file refers to the whole document or replaces a null root, 100 patch files under an open-file limit of 32, stdin delivered in 1/2/n writes, a named pipe, an inherited pipe (/dev/fd/N) and a relative symlink in a sub-directory as patch file at every position, 4 path styles x 4 flag spellings, a stray positional argument (4 texts) at each position of a three-patch list - for both binaries (%d executions)", numFaultKinds, len(enum))}
 	}
 	// 2. seeded random scenarios
 	for i := int64(0); i < p.MaxRuns && time.Now().Before(p.Deadline); i++ {
